@@ -3,6 +3,7 @@ package mon
 import (
 	"fmt"
 	"math"
+	"os"
 	"runtime"
 	"strings"
 
@@ -13,8 +14,10 @@ import (
 
 // OpLimit is the navigator-operation budget of one evaluation. The largest count ever
 // observed on the harness documents (<= 130 nodes) is reported in every evidence file
-// (max_ops, a few 10^5); the budget is more than 100 times that.
-const OpLimit = 50_000_000
+// (max_ops_one_eval). Workloads skip expressions whose estimated engine cost (xgen.CostEstimate: deliveries
+// without de-duplication, every document-wide step multiplying by the document size) exceeds 3*10^6
+// deliveries, so every legitimate evaluation stays well below the budget.
+const OpLimit = 200_000_000
 
 // PanicInfo classifies a recovered panic.
 type PanicInfo struct {
@@ -67,6 +70,9 @@ type SelResult struct {
 func (r SelResult) Aborted() bool { return r.Panic != nil || r.Budget }
 
 func (c *Case) account(ops int64) {
+	if ops > 3_000_000 && os.Getenv("VERIF_DEBUG_OPS") != "" {
+		fmt.Fprintf(os.Stderr, "HEAVY %s %s:%d ops=%d\n", c.Prop, c.Family, c.Index, ops)
+	}
 	c.Rep.Evals++
 	c.Rep.NavOps += ops
 	if ops > c.Rep.MaxOps {
